@@ -51,6 +51,22 @@ func isDefaultDashboard(id string) bool {
 	return exists && item.Type == "dashboard"
 }
 
+// The details files are addressed by the dashboard id alone, so an org may only
+// touch the ids of its own folder structure (the default dashboards belong to every org).
+func isDashboardOfOrg(id string, myid int64) bool {
+	if isDefaultDashboard(id) {
+		return true
+	}
+
+	structure, err := readFolderStructure(myid)
+	if err != nil {
+		return false
+	}
+
+	item, exists := structure.Items[id]
+	return exists && item.Type == ItemTypeDashboard
+}
+
 func getDashboardDetailsPath(id string) string {
 	if isDefaultDashboard(id) {
 		return fmt.Sprintf("defaultDBs/details/%s.json", id)
@@ -177,6 +193,10 @@ func createDashboard(req *CreateDashboardRequest, myid int64) (map[string]string
 }
 
 func toggleFavorite(id string, myid int64) (bool, error) {
+	if !isDashboardOfOrg(id, myid) {
+		return false, fmt.Errorf("toggleFavorite: dashboard not found, id: %v", id)
+	}
+
 	// Load the dashboard JSON file
 	dashboardDetailsFname := getDashboardDetailsPath(id)
 
@@ -216,6 +236,9 @@ func toggleFavorite(id string, myid int64) (bool, error) {
 }
 
 func getDashboard(id string, myid int64) (map[string]interface{}, error) {
+	if !isDashboardOfOrg(id, myid) {
+		return nil, fmt.Errorf("getDashboard: dashboard not found, id: %v", id)
+	}
 
 	dashboardDetailsFname := getDashboardDetailsPath(id)
 
